@@ -150,6 +150,24 @@ def answer (w : List String) : String :=
     match mixed_init (i 1) (i 2) (stOf (w.getD 3 "DISK")) with
     | .ok (n, r, m, ex, sn, st) => s!"{n} {r} {m} {b01 ex} {sn} {stName st}"
     | .error e => "raise:" ++ errStr e
+  | some "revInit" =>
+    -- revInit H|D|P|R max_n ram disk uf ub wd rd
+    let opS (o : PyOp) : String := match o.index with
+      | .pair a b => s!"{o.type}:{a}:{b}"
+      | .single a => s!"{o.type}:{a}"
+    let uf := ratOf (w.getD 5 "1")
+    let ub := ratOf (w.getD 6 "1")
+    let wd := ratOf (w.getD 7 "2")
+    let rd := ratOf (w.getD 8 "2")
+    let r := match w.getD 1 "" with
+      | "H" => hrevolve_init fuel (i 2) (i 3) (i 4) uf ub wd rd
+      | "D" => diskRevolve_init fuel (i 2) (i 3) uf ub wd rd
+      | "P" => periodicDiskRevolve_init fuel (i 2) (i 3) uf ub wd rd
+      | _ => revolve_init fuel (i 2) (i 3) uf ub wd rd
+    let o (x : Option Int) : String := match x with | none => "none" | some v => s!"(some {v})"
+    match r with
+    | .ok (n, r, m, ex, sd, sr, sch) => s!"{n} {r} {o m} {b01 ex} {o sd} {sr} {String.intercalate "," (sch.map opS)}"
+    | .error e => "raise:" ++ errStr e
   | some "twoLevelInit" =>
     match twoLevel_init (i 1) (i 2) (stOf (w.getD 3 "DISK")) (w.getD 4 "maximum") with
     | .ok (n, r, m, p, b, st, tr) => s!"{n} {r} {m} {p} {b} {stName st} {tr}"
